@@ -24,7 +24,9 @@ Record export_row := mkE {
 
 (* InitGenesis: a keeper setter call (in source order), the fields its arguments derive from, the
    prefixes it writes, and what happens when the setter returns an error: 0 it cannot (no non-nil
-   error return), 1 InitGenesis returns - everything after it is skipped, 2 the item is dropped *)
+   error return), 1 InitGenesis returns - everything after it is skipped, 2 the item is dropped;
+   3 / 4: as 1 / 2, but every failing return of the setter is guarded by a condition over the
+   imported item alone (collector.SetNetFeeCollectedData: the fee is negative), not over other state *)
 Record import_row := mkI {
   i_mod : string; i_setter : string; i_fields : list string; i_writes : list Z; i_arg : argkind;
   i_guard : Z }.
